@@ -44,6 +44,8 @@ fn element_menu(full: bool) -> Vec<Item> {
     v.push(Item::El(Op::SetAttr("k".into(), "plain".into())));
     v.push(Item::El(Op::RemoveAttr("ID".into())));
     v.push(Item::El(Op::SetTagName("z".into())));
+    // a rename that differs from the current name only in letter case (start and end tag together)
+    v.push(Item::El(Op::SetTagName("A".into())));
     v.push(Item::El(Op::StBefore("S".into(), true)));
     v.push(Item::El(Op::StAfter("T".into(), true)));
     v.push(Item::El(Op::StReplace("U".into(), true)));
@@ -53,6 +55,7 @@ fn element_menu(full: bool) -> Vec<Item> {
     v.push(Item::End(Op::Replace("G".into(), true)));
     v.push(Item::End(Op::Remove));
     v.push(Item::End(Op::SetText("y".into())));
+    v.push(Item::End(Op::SetText("A".into())));
     v
 }
 
